@@ -1396,6 +1396,17 @@ impl TypeChecker {
                 Err(self.error_expected_type(ident, declaration))
             }
             DeclarationKind::TypeParam(ident) => {
+                // A type parameter does not contain any items, so the path
+                // has to end here.
+                if let Some(next) = idents.next() {
+                    return Err(self.error_simple(
+                        format!(
+                            "cannot find `{next}` in type parameter `{ident}`"
+                        ),
+                        format!("`{ident}` is a type parameter"),
+                        next.id,
+                    ));
+                }
                 if !params.is_empty() {
                     return Err(self.error_simple(
                         format!(
